@@ -59,6 +59,8 @@ package common
 // SnapBytes: the full encoding without the topology suffix.
 //@ spec SnapBytes(s *Snapshot) mathint = SnapSig(SnapBody(s.Version, s.NodeId, s.RoundNumber, s.References, s.Transactions, s.Timestamp), s.Signature)
 
+// [noop] clauses are stated over POINTERS into the backing array (`*p` is the whole 32-byte block): that is the form the callers' frame
+// obligations (quantified over pointers) can use.
 // TxsCanonical: strictly increasing (what the decoder accepts). TxsOrdered: non-decreasing and adjacent elements differ -- what the
 // encoder establishes (the same thing when byte-string order is total; the encoder's check does not need totality).
 //@ spec TxsCanonical(txs []crypto.Hash) bool = forall i int :: 1 <= i && i < len(txs) ==> lexlt(txs[i-1], txs[i])
@@ -97,14 +99,14 @@ package common
 //@   ensures [wf-round0] s.RoundNumber == 0 ==> len(s.Transactions) == 1
 //@   ensures [wf-sig] (!withSig ==> s.Signature == nil) && (s.Signature != nil ==> s.Signature.Mask != 0)
 //@   ensures [sorted] TxsOrdered(s.Transactions)
-//@   ensures [noop] old(TxsCanonical(s.Transactions)) ==> forall i int :: {s.Transactions[i]} 0 <= i && i < len(s.Transactions) ==> s.Transactions[i] == old(s.Transactions[i])
+//@   ensures [noop] old(TxsCanonical(s.Transactions)) ==> forall p *crypto.Hash :: {*p} inblock(p, s.Transactions) ==> *p == old(*p)
 //@   ensures [fresh-buf] fresh(enc.buf)
 //@   ensures [len] len(enc.buf) == EncLenSnap(s)
 //@   ensures [bytes] seq(enc.buf) == SnapBytes(s)
 //@   hint at "enc.EncodeRoundReferences(s.References)" [head] seq(enc.buf) == SnapHead(s.Version, s.NodeId, s.RoundNumber) && fresh(enc.buf) && len(enc.buf) == 44
 //@   hint at "enc.WriteInt(len(s.Transactions))" [refs] seq(enc.buf) == SnapRefs(SnapHead(s.Version, s.NodeId, s.RoundNumber), s.References) && fresh(enc.buf)
 //@   hint at "slices.SortFunc(s.Transactions, func(a, b crypto.Hash) int {" [count] seq(enc.buf) == cat(SnapRefs(SnapHead(s.Version, s.NodeId, s.RoundNumber), s.References), Be16Of(len(s.Transactions))) && fresh(enc.buf)
-//@   hint at "slices.SortFunc(s.Transactions, func(a, b crypto.Hash) int {" [untouched] forall k int :: {s.Transactions[k]} 0 <= k && k < len(s.Transactions) ==> s.Transactions[k] == old(s.Transactions[k])
+//@   hint at "slices.SortFunc(s.Transactions, func(a, b crypto.Hash) int {" [untouched] forall p *crypto.Hash :: {*p} inblock(p, s.Transactions) ==> *p == old(*p)
 //@   hint at "enc.WriteUint64(s.Timestamp)" [txs] seq(enc.buf) == SnapTxs(cat(SnapRefs(SnapHead(s.Version, s.NodeId, s.RoundNumber), s.References), Be16Of(len(s.Transactions))), s.Transactions, len(s.Transactions))
 //@   hint at "enc.EncodeCosiSignature(s.Signature)" [body] seq(enc.buf) == SnapBody(s.Version, s.NodeId, s.RoundNumber, s.References, s.Transactions, s.Timestamp)
 //@   loop 0 invariant [lo] 1 <= i
@@ -112,9 +114,40 @@ package common
 //@   loop 1 invariant [fresh] fresh(enc.buf) && allocated(enc.buf)
 //@   loop 1 invariant [len] len(enc.buf) == 46 + (s.References == nil ? 2 : 66) + 32 * (rangeindex + 1)
 //@   loop 1 invariant [pre] loopentry(seq(enc.buf)) == cat(SnapRefs(SnapHead(s.Version, s.NodeId, s.RoundNumber), s.References), Be16Of(len(s.Transactions)))
-//@   loop 1 invariant [noop] old(TxsCanonical(s.Transactions)) ==> forall k int :: {s.Transactions[k]} 0 <= k && k < len(s.Transactions) ==> s.Transactions[k] == old(s.Transactions[k])
-//@   loop 1 invariant [kept] forall k int :: {s.Transactions[k]} 0 <= k && k < len(s.Transactions) ==> s.Transactions[k] == loopentry(s.Transactions[k])
+//@   loop 1 invariant [noop] old(TxsCanonical(s.Transactions)) ==> forall p *crypto.Hash :: {*p} inblock(p, s.Transactions) ==> *p == old(*p)
+//@   loop 1 invariant [kept] forall p *crypto.Hash :: {*p} inblock(p, s.Transactions) ==> *p == loopentry(*p)
 //@   loop 1 invariant [unfold] rangeindex + 1 < len(s.Transactions) ==> loopentry(SnapTxs(seq(enc.buf), s.Transactions, rangeindex + 2)) ==
 //@       cat(loopentry(SnapTxs(seq(enc.buf), s.Transactions, rangeindex + 1)), loopentry(seq(s.Transactions[rangeindex + 1])))
 //@   loop 1 invariant [bytes] seq(enc.buf) == loopentry(SnapTxs(seq(enc.buf), s.Transactions, rangeindex + 1))
 //@   loop 1 invariant [framed] SnapTxs(loopentry(seq(enc.buf)), s.Transactions, len(s.Transactions)) == loopentry(SnapTxs(seq(enc.buf), s.Transactions, len(s.Transactions)))
+
+// What a caller of the encoder learns about the snapshot on normal return (the encoder rejects everything else by panic).
+//@ spec SnapEncodable(s *Snapshot) bool = s.Version >= SnapshotVersionCommonEncoding && 1 <= len(s.Transactions) && len(s.Transactions) <= SnapshotTransactionsMaximum &&
+//@     (s.RoundNumber == 0 ==> len(s.Transactions) == 1) && (s.Signature != nil ==> s.Signature.Mask != 0)
+
+//@ func (enc *Encoder) EncodeSnapshotPayload
+//@   property C07
+//@   requires [args] enc != nil && s != nil
+//@   requires [fresh-encoder] enc.buf == nil && len(enc.buf) == 0 && cap(enc.buf) == 0 -- the only caller passes NewEncoder()
+//@   maypanic
+//@   modifies enc.buf, enc.buf[*], s.Transactions[..]
+//@   ensures [wf] SnapEncodable(s) && s.Signature == nil
+//@   ensures [sorted] TxsOrdered(s.Transactions)
+//@   ensures [noop] old(TxsCanonical(s.Transactions)) ==> forall p *crypto.Hash :: {*p} inblock(p, s.Transactions) ==> *p == old(*p)
+//@   ensures [fresh] fresh(result) && result == enc.buf
+//@   ensures [bytes] seq(result) == SnapPayloadBytes(s.Version, s.NodeId, s.RoundNumber, s.References, s.Transactions, s.Timestamp)
+
+// versionedPayload copies the six payload fields into a new Snapshot (Signature and Hash stay zero) and encodes that: the bytes are
+// a function of the six fields only. The copy SHARES the backing array of s.Transactions, so the encoder's in-place sort reorders
+// the caller's transactions ([sorted]); nothing else is written, and nothing at all when they are already in canonical order ([noop]).
+//@ func (s *Snapshot) versionedPayload
+//@   property C07
+//@   requires [args] s != nil
+//@   maypanic
+//@   modifies s.Transactions[..]
+//@   ensures [version] s.Version == SnapshotVersionCommonEncoding
+//@   ensures [wf] 1 <= len(s.Transactions) && len(s.Transactions) <= SnapshotTransactionsMaximum && (s.RoundNumber == 0 ==> len(s.Transactions) == 1)
+//@   ensures [sorted] TxsOrdered(s.Transactions)
+//@   ensures [noop] old(TxsCanonical(s.Transactions)) ==> forall p *crypto.Hash :: {*p} inblock(p, s.Transactions) ==> *p == old(*p)
+//@   ensures [fresh] fresh(result)
+//@   ensures [bytes] seq(result) == SnapPayloadBytes(s.Version, s.NodeId, s.RoundNumber, s.References, s.Transactions, s.Timestamp)
